@@ -3,7 +3,10 @@
 (T) lean/DoitModel/Props/C17.lean: classify_py, py_exec, tools_actions, classify_cmd (+_status, _signal), cmd_exec, task_execute,
     teardown_execute, task_values_lookup, classification_verbosity_independent, writer_interface, restore_nested (+_any, restore_exec, forest_well_nested), restore_nested_live (the machine
     with the Writer's live copy, + forest_well_nested_live), live_rule; counterexamples
-    overlap_counterexample(_min) (F-C17a, open) and pinned_kwargs_counterexample (F-C17b, fixed).
+    overlap_counterexample(_min) (F-C17a, open) and pinned_kwargs_counterexample (F-C17b, fixed);
+    io.capture as a mode of the stream machine (Model/Act.lean `Mode`, Proofs/ActMode.lean): restore_forest_mode,
+    restore_exec_nocapture, nocapture_passthrough(_init), mode_extends_fwd, capture_mode_independent_classification,
+    save_out_independent_of_capture_partial (+ _refuted: the full statement is false of the code), py_stored.
 (K) the real PythonAction / CmdAction / Task.execute of $VERIF_REPO are run on generated cases (harness/actlib.py)
     and every observable is compared with the Lean model through doitdrv.
 (P) the statement: classification by category, task stops at the first unsuccessful action and result/values
@@ -44,7 +47,9 @@ META = {
                   'form of the Task.execute loop for every action list, and -- by induction over well-nested step '
                   'lists of any depth and length -- that nested or disjoint python-action executions leave the '
                   'stdout cell holding the original stream and give every action exactly its own writes in order, '
-                  'also with the live copy of Writer (forwarding into the enclosing action and the original stream). '
+                  'also with the live copy of Writer (forwarding into the enclosing action and the original stream), and '
+                  'with io.capture off as a second swap discipline mixed into the nesting (cell restored from any state, '
+                  'every write of a capture-off execution on the original stream in order exactly once at every verbosity). '
                   'Overlapping executions (threads) provably break this (decide-checked counterexample = the open '
                   'finding F-C17a).  The model is tied to doit/action.py and doit/task.py on every run by executing '
                   'the real classes on generated return values, exit statuses 0..255, signals, byte outputs, '
